@@ -94,6 +94,41 @@ Definition ok (c : casety) : nat :=
   end.
 '''
 
+OK_G = r'''
+From Bignums Require Import BigQ.
+From SVP Require Import Model.Bezier Model.Isect Model.IsectExec.
+Definition N := NumBQ.
+Definition eps7 : bigQ := bqc 1 10000000.
+(* case: control points of the curve, line start, line end, number of pairs returned,
+   hints = approximate crossing parameters (only used to build certificates) *)
+(* nobs: the numbers of pairs returned by the four call forms *)
+Definition casety : Type := (list (Cplx bigQ) * Cplx bigQ * Cplx bigQ * list Z * list bigQ)%type.
+(* a bracket [r-eps, r+eps] inside (0,1) on which the crossing polynomial changes
+   sign and the foot point is strictly inside the segment at both ends *)
+Definition bracket_ok (g h : list bigQ) (n2 r : bigQ) : bool :=
+  let a := sub N r eps7 in let b := add N r eps7 in
+  ltb N (zero N) a && ltb N b (one N)
+  && ltb N (mul N (peval N g a) (peval N g b)) (zero N)
+  && ltb N (zero N) (peval N h a) && ltb N (peval N h a) n2
+  && ltb N (zero N) (peval N h b) && ltb N (peval N h b) n2.
+Fixpoint separated (l : list bigQ) : bool :=
+  match l with
+  | a :: ((b :: _) as r) => ltb N (add N a (add N eps7 eps7)) b && separated r
+  | _ => true
+  end.
+Definition ok (c : casety) : nat :=
+  let '(bez, l0, l1, nobs, hints) := c in
+  match crossing_count N bez l0 l1 with
+  | None => 99                                   (* not in general position: nothing claimed *)
+  | Some n =>
+      let g := cross_poly N bez l0 l1 in let h := dot_poly N bez l0 l1 in
+      let n2 := cnorm2 N (csub N l1 l0) in
+      if negb (Z.eqb n (Z.of_nat (length hints)) && separated hints && forallb (bracket_ok g h n2) hints)
+      then 98                                    (* count not confirmed by sign-change brackets: nothing claimed *)
+      else if forallb (Z.eqb n) nobs then 0 else if existsb (fun m => Z.ltb m n) nobs then 1 else 2
+  end.
+'''
+
 OK_C = r'''
 From Bignums Require Import BigQ.
 From SVP Require Import Model.Bezier Model.Isect Model.IsectExec.
@@ -442,6 +477,122 @@ def run_E(rep, K, tmp, rng, n, secs, only=None):
               replay_pair(da, dl, {'family': m['family'], 'crossings': [list(e) for e in expected], 'returned': res[:12],
                                    'tilt': m['tilt'], 'call': name}), ic.pair_size(ic.mkseg(da), ic.mkseg(dl)))
     return len(cases), errors, stats
+
+
+# ----------------------------------------------------------------- G
+def axis_line_case(rng):
+    """a Quadratic / Cubic against an EXACTLY axis-parallel Line, in one of the four directions
+    (left-to-right, right-to-left, bottom-to-top, top-to-bottom); integer or generic coordinates.
+    Built for a left-to-right horizontal line and then turned by 1, -1, 1j or -1j (exact).
+    Returns (d_bez, d_line, known crossings [(t_bez, t_line)] or None, meta)"""
+    kind = rng.choice(['Q', 'C', 'C'])
+    n = 3 if kind == 'Q' else 4
+    known = None
+    if rng.random() < 0.5:
+        # integer control points, the line on a half-integer level through the control polygon's range
+        pts = [complex(rng.randint(0, 60), rng.randint(0, 60)) for _ in range(n)]
+        ys = sorted({p.imag for p in pts})
+        if len(ys) < 2:
+            return None
+        lvl = rng.randint(int(ys[0]), int(ys[-1]) - 1) + 0.5
+        line = ('L', complex(-rng.randint(5, 20), lvl), complex(60 + rng.randint(5, 20), lvl))
+        coords = 'integer'
+    else:
+        # y(t) = lvl + k prod (t - r_i) with 1..3 roots in (0,1); x(t) spread over the line
+        scale = rng.choice([1.0, 10.0, 100.0])
+        deg = n - 1
+        nroots = rng.randint(1, deg)
+        roots = sorted(rng.uniform(0.08, 0.92) for _ in range(nroots))
+        if any(b - a < 0.05 for a, b in zip(roots, roots[1:])):
+            return None
+        allr = roots + [rng.choice([-1, 1]) * rng.uniform(1.5, 4) + 0.5 for _ in range(deg - nroots)]
+        import numpy as np
+        co = [float(c) for c in np.poly(allr)]
+        k = rng.choice([1, -1]) * scale * rng.uniform(0.5, 20)
+        lvl = rng.uniform(-1, 1) * scale
+        if deg == 2:
+            a2, a1, a0 = [c * k for c in co]
+            ys = [a0, a1 / 2 + a0, a2 + a1 + a0]
+        else:
+            a3, a2, a1, a0 = [c * k for c in co]
+            ys = [a0, a1 / 3 + a0, (a2 + 2 * a1) / 3 + a0, a3 + a2 + a1 + a0]
+        xs = sorted(rng.uniform(0, scale) for _ in range(n))
+        pts = [complex(x, y + lvl) for x, y in zip(xs, ys)]
+        line = ('L', complex(-0.3 * scale, lvl), complex(1.3 * scale, lvl))
+        bez = ic.mkseg((kind,) + tuple(pts))
+        known = [(r, (bez.point(r).real - line[1].real) / (line[2].real - line[1].real)) for r in roots]
+        coords = 'generic'
+    turn = rng.choice([1, -1, 1j, -1j])
+    direction = {1: 'left-to-right', -1: 'right-to-left', 1j: 'bottom-to-top', -1j: 'top-to-bottom'}[turn]
+    db = (kind,) + tuple(p * turn for p in pts)
+    dl = ('L', line[1] * turn, line[2] * turn)
+    return db, dl, known, {'family': 'axis-parallel-line-%s' % direction, 'coords': coords}
+
+
+def run_G(rep, K, tmp, rng, n, secs):
+    """exactly axis-parallel lines in the four directions x Quadratic/Cubic: the number of pairs
+    returned by bez.intersect(line), line.intersect(bez), Path(bez).intersect(Path(line)) and
+    Path(line).intersect(Path(bez)) against the exact crossing count (Sturm/Tarski in Coq);
+    constructed crossings (known parameters) through check A in both call orders"""
+    from svgpathtools import Path
+    cases, meta, aitems = [], [], []
+    stats = collections.Counter()
+    made = 0
+    for i in range(6 * n):
+        if made >= n:
+            break
+        try:
+            r = axis_line_case(rng)
+        except Exception:
+            r = None
+        if r is None:
+            continue
+        db, dl, known, m = r
+        bez, line = ic.mkseg(db), ic.mkseg(dl)
+        try:
+            hints = general_position(list(db[1:]), dl[1], dl[2])
+        except Exception:
+            continue
+        if hints is False:
+            continue
+        made += 1
+        stats['G:' + m['family'] + ' (' + m['coords'] + ')'] += 1
+        forms = (lambda: bez.intersect(line), lambda: line.intersect(bez),
+                 lambda: Path(bez).intersect(Path(line)), lambda: Path(line).intersect(Path(bez)))
+        counts, bad = [], False
+        for f in forms:
+            st, val = ic.guarded(f, secs)
+            if st != 'ok':
+                bad = True
+                if st == 'exc':
+                    K.add('intersect-exception-bezier-line-%s' % type(val).__name__,
+                          'C12: intersect raised %r for an axis-parallel line (%s) x %s' % (val, m['family'], ic.KNAME[db[0]]),
+                          replay_pair(db, dl, {'family': m['family']}), ic.pair_size(bez, line))
+                break
+            counts.append(len(val))
+        if bad:
+            continue
+        cases.append('(%s, %s, %s, %s, %s)' % (coq_list([cbq(z) for z in db[1:]]), cbq(dl[1]), cbq(dl[2]),
+                                               coq_list(['(%d)%%Z' % c for c in counts]), coq_list([bq(h) for h in hints])))
+        meta.append((db, dl, m, counts))
+        if known:
+            aitems.append((db, dl, known, {'family': m['family']}))
+            aitems.append((dl, db, [(b, a) for a, b in known], {'family': m['family']}))
+    fails, errors = common.run_cases(tmp, '', 'casety', OK_G, cases, shard=25, prefix='g')
+    for idx, code in fails:
+        if code in (98, 99):
+            stats['G:undecided'] += 1
+            continue
+        db, dl, m, counts = meta[idx]
+        K.add('bezier-line-count-%s-axis-parallel' % ('too-few' if code == 1 else 'too-many'),
+              'C12: %s x %s Line (%s coordinates): pairs returned by [bez.intersect(line), line.intersect(bez), '
+              'Path(bez).intersect(Path(line)), Path(line).intersect(Path(bez))] = %s; the exact number of crossings '
+              '(Sturm count in Coq) is %s' % (ic.KNAME[db[0]], m['family'], m['coords'], counts,
+                                             'larger than some' if code == 1 else 'smaller than some'),
+              replay_pair(db, dl, {'family': m['family'], 'counts': counts}), ic.pair_size(ic.mkseg(db), ic.mkseg(dl)))
+    nA2, eA2, sA2 = run_A(rep, K, tmp, aitems, secs)
+    stats.update(sA2)
+    return len(cases) + nA2, errors + eA2, stats
 
 
 # ----------------------------------------------------------------- F
@@ -875,11 +1026,15 @@ def run(rep, tier, seed, replay=None):
         nE, eE, sE = run_E(rep, K, tmp, rng, (80 if quick else 1500) * boost, secs)
         # integer-grid Bezier-Bezier pairs, both operand orders (drawn last)
         nF, eF, sF = run_F(rep, K, tmp, rng, (45 if quick else 1500) * boost, secs)
-        for e in eA + eB + eC + eD + eE + eF:
+        # exactly axis-parallel lines in the four directions x Quadratic/Cubic (drawn last)
+        nG, eG, sG = run_G(rep, K, tmp, rng, (48 if quick else 1200) * boost, secs)
+        for e in eA + eB + eC + eD + eE + eF + eG:
             rep.violation('C12 case file failed to evaluate', {'kind': 'cases', 'error': e}, found_input=False, key='cases-error')
         K.flush()
         stats = dict(sA); stats.update(sB); stats.update(sC); stats.update(sE); stats.update(sF)
-        rep.cov['evaluations'] = nA + nB + nC + nD + nE + nF
+        for k_, v_ in sG.items():
+            stats[k_] = stats.get(k_, 0) + v_
+        rep.cov['evaluations'] = nA + nB + nC + nD + nE + nF + nG
         rep.cov['traces_validated_against_impl'] = nB + nD
         rep.cov['distinct_nontrivial'] = nA + nB
         rep.cov['rule'] = ('A: constructed transversal crossings (all 16 ordered kind pairs, two arcs only circular+unrotated; '
@@ -894,7 +1049,8 @@ def run(rep, tier, seed, replay=None):
         rep.cov['samples'] = [{'seg1': repr(ic.mkseg(d1)), 'seg2': repr(ic.mkseg(d2)), 'constructed_crossings': cr,
                                'family': m['family']} for d1, d2, cr, m in itemsA[:3]]
         rep.cov['case_counts'] = {'A_constructed_crossings': nA, 'B_exact_counts': nB, 'C_path': nC, 'D_polyroots_lists': nD,
-                                  'E_near_axis_parallel_arc_line': nE, 'F_integer_grid_both_orders': nF}
+                                  'E_near_axis_parallel_arc_line': nE, 'F_integer_grid_both_orders': nF,
+                                  'G_axis_parallel_lines_four_directions': nG}
         if info['agree_failed'] and not rep.violations:
             rep.violation('agreement lemma(s) %s no longer check' % info['agree_failed'],
                           {'kind': 'agreement', 'lemmas': info['agree_failed'], 'file': 'coq/GenAgree/Isect.v'},
